@@ -107,6 +107,8 @@ def sensitivity(only, short: bool) -> bool:
             mj = json.load(open(os.path.join(os.path.dirname(p), "meta.json")))
             meta.update({"property": mj["property"], "expect": mj.get("expect", mj["property"] + "-"),
                          "tier": mj.get("tier", "quick"), "runs": mj.get("runs")})
+            if mj.get("caught_by_check"):    # a change aimed at one property that another property's check decides
+                meta.update({"property": mj["caught_by_check"], "expect": mj["caught_by_check"] + "-"})
         cid = meta["property"]
         harmless = (meta["expect"] == "NONE")
         documented_miss = None
